@@ -217,10 +217,30 @@ def r09_3(ctx):
                 if isinstance(b, list) and st in b:
                     body = b
             rest = [x for x in (body[body.index(st) + 1:] if body else []) if not _trivial(x)]
-            nxt = rest[0] if rest else None
-            ok = (isinstance(nxt, ast.If) and ast.unparse(nxt.test) == var and nxt.body and isinstance(nxt.body[-1], ast.Return)
-                  and isinstance(nxt.body[-1].value, ast.Call) and ast.unparse(nxt.body[-1].value.func) == "_found_dep_loop"
-                  and [ast.unparse(a) for a in nxt.body[-1].value.args] == [var, item])
+            # every way on from the store on which the result is a loop returns `_found_dep_loop(<result>, <item>)` before anything else
+            # happens - written as `if loop: return ..`, or as `if not loop: continue` followed by the return
+            from ..pathenum import RET, Enumerator, Path
+
+            def on_stmt(s_, p_, loops_):
+                if isinstance(s_, ast.Return):
+                    p_.events.append(("RETURN", s_.lineno, s_))
+                elif not _trivial(s_):
+                    p_.events.append(("OTHER", s_.lineno, s_))
+            ok = bool(rest)
+            n_pos = 0
+            for p_, status in (Enumerator(on_stmt, max_iter=1).run(rest, Path()) if rest else []):
+                if any((c_ == var and not pol) or (c_ == f"not {var}" and pol) or (c_ in (f"{var} is None",) and pol) for c_, pol, _, _ in p_.conds):
+                    continue  # no loop was found below
+                if not any((c_ == var and pol) or (c_ == f"not {var}" and not pol) or (c_ in (f"{var} is not None",) and pol) for c_, pol, _, _ in p_.conds):
+                    ok = False  # the result is not looked at on this path
+                    break
+                n_pos += 1
+                first = p_.events[0] if p_.events else None
+                if not (status == RET and first and first[0] == "RETURN" and isinstance(first[2].value, ast.Call)
+                        and ast.unparse(first[2].value.func) == "_found_dep_loop" and [ast.unparse(a) for a in first[2].value.args] == [var, item]):
+                    ok = False
+                    break
+            ok = ok and n_pos > 0
             if not ok:
                 bad.append(f"line {c.lineno}: not followed by `if {var}: return _found_dep_loop({var}, {item})`")
         (ctx.bad(construct, "; ".join(bad), fn.loc()) if bad or not rec_calls else ctx.ok(construct, fn.loc(), calls=len(rec_calls)))
